@@ -19,7 +19,7 @@ claimed = {
    note="'Estimated fee' is computed independently: reference-codec size with the documented 107-byte dummy unlocking script per unsigned P2PKH input, exact integer floor arithmetic; base scenarios are sampled; inputs on error paths are unconstrained.", ref="DESIGN.md §3 C12"),
  "C18": dict(cat="exploration", tech="deterministic simulation: source-instrumented scratch copy run under a seeded cooperative scheduler with simulated RWMutex, Once, Pool, atomics, timers and clock; vector-clock race detection, porcupine linearizability against a sequential fee-quote model, interleaved-vs-solo equality for one shared engine",
    text="Seeded search over interleavings of caller tasks on shared FeeQuote/FeeQuotes objects (every lock op and guarded access is a yield point, clock jumps injected) and of concurrent Execute calls on one engine; data races by vector clocks, linearizability by porcupine, deadlock and solo-equality checks.",
-   note="Races are detected on the instrumented shared types and written package variables of packages bt and interpreter only; dependencies run atomically; sampling, not enumeration.", ref="DESIGN.md §3 C18"),
+   note="Races are detected on the instrumented shared types (incl. the types of package-level struct variables that are field-written or address-taken after init) and written package variables of packages bt and interpreter only; dependencies run atomically; sampling, not enumeration.", ref="DESIGN.md §3 C18"),
  "C19": dict(cat="exploration", tech="deterministic simulation: hostile observer party behind the Debugger seam (records, then scribbles snapshots at seeded or all callbacks); lifecycle automaton over the callback history and three-way run equality (none / recording / scribbling / fan-out)",
    text="For corpus and seeded programs each execution is run with no debugger, a recording debugger, a scribbling debugger (exhaustive scribble-all and seeded subsets) and through the debug fan-out; verdicts must be identical, the callback history must satisfy the lifecycle automaton and snapshot-consistency clauses, and recorded histories must be identical with and without scribbling.",
    note="Programs are sampled (corpus + generated); only stack data inside snapshots is scribbled, as the property states; opcode semantics beyond pure data movement are not modelled.", ref="DESIGN.md §3 C19"),
